@@ -163,7 +163,7 @@ def elemSpans (bs : Bytes) : Option (List Bytes) :=
         match r with
         | 0x5d :: _ => some acc.reverse
         | _ =>
-          match Spec.Pos.scanValue (r.length + 2) r p with
+          match Spec.Pos.scanValue (2 * r.length + 4) r p with
           | .ok r' e =>
             let span := r.take (e - p)
             let (r'', q) := Spec.Pos.skipWs r' e
@@ -194,7 +194,7 @@ def memberSpans (bs : Bytes) : Option (List Bytes) :=
             (match r1 with
              | 0x3a :: r2 =>
                let (r2, p2) := Spec.Pos.skipWs r2 (p1 + 1)
-               match Spec.Pos.scanValue (r2.length + 2) r2 p2 with
+               match Spec.Pos.scanValue (2 * r2.length + 4) r2 p2 with
                | .ok r3 e =>
                  let span := r2.take (e - p2)
                  let (r4, q) := Spec.Pos.skipWs r3 e
